@@ -43,6 +43,14 @@ def msgOf : TestStatus → Val
   | .skipped => .str "out"
   | _ => .str "error upon comparison"
 
+/-- the outcome children by status, spelled out (NOT through the table `Gen.cliJunitChildren`, which is regenerated from the same
+    source): failed → failure; error → failure and error; skipped → skipped; passed → none -/
+def childrenSpec : TestStatus → List String
+  | .failed => ["failure"]
+  | .error => ["failure", "error"]
+  | .skipped => ["skipped"]
+  | .passed => []
+
 /-- the element operations `_add_test_case(tree, test, classname)` performs, in order: the four attributes of the new `testcase`
     element and one `message` per outcome child — the children are the MODEL's `junitChildren` of the status -/
 def caseTrace (tree cn : Val) (c : TestCase) (st : TestStatus) : List Val :=
